@@ -13,7 +13,7 @@ import (
 )
 
 func init() {
-	register(&Rule{ID: "HELP-1", Props: []string{"C17", "C14"}, Floor: 6,
+	register(&Rule{ID: "HELP-1", Props: []string{"C17", "C14", "C16"}, Floor: 6,
 		Doc: "help rows: every declared argument, option and non-hidden command is visited; rows carry description, env list and default; all aliases; long description only on request; usage line = full path + trimmed spec + COMMAND marker iff sub-commands; children get the full parent path", Run: help1})
 	register(&Rule{ID: "HELP-2", Props: []string{"C17"}, Floor: 6,
 		Doc: "help helpers: default shown iff not hidden and non-empty; every env variable listed; first short and first long option name", Run: help2})
